@@ -105,7 +105,9 @@ struct Run {
   bool cycle = false;
   std::map<std::string, std::string> failFlags;   // command -> mode
   std::map<std::string, Rec> recs;
-  std::set<std::string> removedByTool;            // stale-file-removal observation (paths removed in this build)
+  std::map<std::string, std::vector<std::string>> staleLast;   // stale-file-removal: expected list of its last successful run
+  std::map<std::string, bool> staleHas;
+  int staleChecks = 0, staleRemovals = 0;
   uint64_t seq = 0;
 
   util::Hasher evh;
@@ -559,6 +561,37 @@ void Run::opBuild(const Json& op) {
   for (auto& n : roots)
     if (!desc.producer(n) && !isVirtualNode(n) && !stateOf(n).exists) anyPredictedFailure = true;
 
+  // ---- C14: what the stale-file-removal commands on the way to the target must remove
+  std::set<std::string> wantRemoved;       // existing paths that must disappear (top of each removed sub-tree)
+  std::vector<const Cmd*> staleCmds;
+  for (const Cmd* c : order)
+    if (c->tool == "stale-file-removal") staleCmds.push_back(c);
+  auto stripSep = [](std::string r) {
+    while (r.size() > 1 && r.back() == '/') r.pop_back();
+    return r;
+  };
+  for (const Cmd* c : staleCmds) {
+    if (!staleHas[c->name]) continue;
+    std::set<std::string> cur(c->expected.begin(), c->expected.end());
+    for (auto& pth : staleLast[c->name]) {
+      if (cur.count(pth)) continue;
+      bool allowed = c->roots.empty();
+      if (!c->roots.empty() && !pth.empty() && pth[0] == '/') {
+        for (auto& root : c->roots) {
+          std::string r = stripSep(root);
+          if (r.empty()) continue;
+          if (pth == r || pth == r + "/" || pth.compare(0, r.size() + 1, r + "/") == 0 || (r == "/" && pth[0] == '/')) allowed = true;
+        }
+      }
+      if (!allowed || pth.empty()) continue;
+      simfs::StatBuf sb;
+      if (simfs::fs().stat(abs(pth), false, &sb) == 0) wantRemoved.insert(abs(pth));
+    }
+  }
+  size_t mutFrom = simfs::fs().log.size();
+  std::string savedActor = simfs::fs().actor;
+  simfs::fs().actor = "build";
+
   // ---- the build, in a fresh "process": new delegate, new frontend, same disk
   llvm::SourceMgr sm;
   Delegate delegate(this, sm);
@@ -581,7 +614,51 @@ void Run::opBuild(const Json& op) {
     ok = byNode ? frontend.buildNode(node) : frontend.build(target);
     sim::set_child_role("");
   }
+  simfs::fs().actor = savedActor;
   ev(std::string("build-end ") + (ok ? "ok" : "failed"));
+  // ---- C14: exactly the obsolete outputs inside the allowed roots are gone, nothing else was touched
+  if (!staleCmds.empty()) {
+    staleChecks++;
+    std::set<std::string> removedPaths;
+    for (size_t i = mutFrom; i < simfs::fs().log.size(); i++) {
+      auto& m = simfs::fs().log[i];
+      if (m.actor != "build") continue;
+      if (m.kind == simfs::Mutation::Unlink || m.kind == simfs::Mutation::Rmdir) removedPaths.insert(m.path);
+      else if (m.kind != simfs::Mutation::Create && m.kind != simfs::Mutation::Write && m.kind != simfs::Mutation::Truncate && m.kind != simfs::Mutation::Mkdir)
+        viol("C14.3", "the build performed an unexpected file-system mutation on " + util::printable(m.path, 60));
+    }
+    // canonical spelling of what had to go
+    std::set<std::string> wantCanon;
+    for (auto& w : wantRemoved) {
+      std::string canon = w;
+      // collapse doubled separators and a trailing one
+      std::string c2;
+      for (char ch : canon)
+        if (!(ch == '/' && !c2.empty() && c2.back() == '/')) c2 += ch;
+      while (c2.size() > 1 && c2.back() == '/') c2.pop_back();
+      wantCanon.insert(c2);
+    }
+    for (auto& w : wantCanon) {
+      simfs::StatBuf sb;
+      if (simfs::fs().stat(w, false, &sb) == 0)
+        viol("C14.1", "obsolete output " + util::printable(w, 60) + " (listed by the previous run, not listed now, inside the allowed roots) was not removed");
+      else
+        staleRemovals++;
+    }
+    for (auto& r : removedPaths) {
+      bool covered = false;
+      for (auto& w : wantCanon)
+        if (r == w || r.compare(0, w.size() + 1, w + "/") == 0) covered = true;
+      // the database journal is the build's own business
+      if (r.find("build.db") != std::string::npos) covered = true;
+      if (!covered) viol("C14.2", "the build removed " + util::printable(r, 60) + ", which is not an obsolete output inside the allowed roots");
+    }
+    for (const Cmd* c : staleCmds)
+      if (startedThisBuild.count(c->name) && !failedThisBuild.count(c->name)) {
+        staleLast[c->name] = c->expected;
+        staleHas[c->name] = true;
+      }
+  }
   res.counters["builds"]++;
   if (ok) res.counters["builds_ok"]++;
 
@@ -962,6 +1039,53 @@ struct Gen {
     desc.normalise();
   }
 
+  // ---- C14: histories of (expected outputs, roots) for a stale-file-removal command
+  std::vector<std::string> stalePool() {
+    std::string w = kWork;
+    return {w + "/r/a.out", w + "/r/sub/b.o", w + "/rr/c.o", w + "/r2/d.o", w + "/other/e.o", w + "/r//f.o", "rel/g.o", w + "/r/dir1",
+            w + "/r/sub", w + "/r/sub/deep/h.o", w + "/r2", w + "/r/x y.o", "", w + "/r/a.out.extra", w + "/r2/sub/i.o", w + "/rr"};
+  }
+  std::vector<std::string> rootPool() {
+    std::string w = kWork;
+    return {w + "/r", w + "/r/", w + "/r2", w + "/r/sub", w + "/r/sub/", w + "/rr/", w + "/r2//", w, w + "/"};
+  }
+  void setStale(Cmd& c) {
+    auto pool = stalePool();
+    c.expected.clear();
+    int n = (int)rng.range(0, 7);
+    for (int i = 0; i < n; i++) c.expected.push_back(pool[rng.below(pool.size())]);
+    std::sort(c.expected.begin(), c.expected.end());
+    c.expected.erase(std::unique(c.expected.begin(), c.expected.end()), c.expected.end());
+    c.roots.clear();
+    if (rng.chance(650)) {
+      auto rp = rootPool();
+      int nr = (int)rng.range(1, 2);
+      for (int i = 0; i < nr; i++) c.roots.push_back(rp[rng.below(rp.size() - (rng.chance(900) ? 2 : 0))]);
+    }
+  }
+  void buildStale() {
+    desc = Desc();
+    sources.clear();
+    Cmd s;
+    s.name = "S";
+    s.tool = "stale-file-removal";
+    s.outputs = {"<stale>"};
+    setStale(s);
+    desc.cmds.push_back(s);
+    desc.targets[""] = {"<stale>"};
+    // files that exist on disk: everything in the pool (as files; directories get a child) plus bystanders
+    for (auto& pth : stalePool()) {
+      if (pth.empty()) continue;
+      std::string rel = pth[0] == '/' ? pth.substr(strlen(kWork) + 1) : pth;
+      if (rel == "r/dir1" || rel == "r/sub" || rel == "r2" || rel == "rr") continue;   // these are directories
+      if (rng.chance(850)) sources[rel] = "artifact " + std::to_string(counter++) + "\n";
+    }
+    sources["r/dir1/inner/k.o"] = "nested\n";
+    sources["bystander.txt"] = "keep me\n";
+    sources["r/keep.o"] = "keep me too\n";
+    sources["rr/keep2.o"] = "keep\n";
+  }
+
   // ---- C12: a source tree consumed through a directory-tree / directory-structure node
   std::set<std::string> treeFiles, treeDirs;
   std::string pickName(bool dirName) {
@@ -1139,6 +1263,7 @@ struct Gen {
     cfg.set("base_env", be);
     plan.set("config", cfg);
     build();
+    if (property == "C14") buildStale();
     plan.set("desc", desc.toJson());
     Json src = Json::arr();
     for (auto& s : sources) src.push(Json::obj().set("path", util::hex(s.first)).set("content", util::hex(s.second)));
@@ -1156,6 +1281,21 @@ struct Gen {
     std::vector<std::string> flagged;
     for (int i = 0; i < nOps; i++) {
       unsigned roll = (unsigned)rng.below(1000);
+      if (property == "C14") {
+        if (rng.chance(800)) {
+          setStale(desc.cmds[0]);
+          hist.push(Json::obj().set("op", "desc").set("kind", "stale-lists").set("desc", desc.toJson()));
+        }
+        if (rng.chance(250)) {
+          // an artifact reappears (a later build step would have produced it)
+          auto pool = stalePool();
+          std::string pth = pool[rng.below(pool.size())];
+          if (!pth.empty() && pth.find("dir1") == std::string::npos && pth != std::string(kWork) + "/r/sub" && pth != std::string(kWork) + "/r2" && pth != std::string(kWork) + "/rr")
+            hist.push(Json::obj().set("op", "edit").set("path", util::hex(pth)).set("content", util::hex("again " + std::to_string(counter++) + "\n")));
+        }
+        addBuild();
+        continue;
+      }
       if (property == "C12" && rng.chance(650)) {
         int n = (int)rng.range(1, 2);
         for (int t = 0; t < n; t++) hist.push(treeOp());
@@ -1316,7 +1456,10 @@ public:
     else if (p == "C10") run.res.nontrivial = run.failuresInjected > 0;
     else if (p == "C11") run.res.nontrivial = run.discoveredSeen > 0;
     else if (p == "C12") run.res.nontrivial = run.treeEdits > 0 && run.treeReruns > 0;
+    else if (p == "C14") run.res.nontrivial = run.staleChecks >= 2 && run.staleRemovals > 0;
     else run.res.nontrivial = run.buildNo >= 2;
+    c["stale_removal_builds"] += (uint64_t)run.staleChecks;
+    c["stale_paths_removed"] += (uint64_t)run.staleRemovals;
     c["tree_edits"] += (uint64_t)run.treeEdits;
     c["tree_consumer_reruns"] += (uint64_t)run.treeReruns;
     run.res.sample = "commands=" + std::to_string(run.desc.cmds.size()) + " builds=" + std::to_string(run.buildNo) + " lanes=" + std::to_string(run.lanes) +
